@@ -254,11 +254,12 @@ package server
 //@ attr blocks
 //@ assigns *
 //@ emits Check(hc)
-//@ ensures[C01,C09] success_needs_2xx: emitted(HealthResult(_, true)) ==> emitted(Probe(_, _, true))
-//@ ensures[C01,C09] non_2xx_never_succeeds: emitted(Probe(_, _, false)) ==> none(HealthResult(_, true))
-//@ ensures[C01,C09] one_probe_one_report: count(Probe(_, _, _)) <= 1 && count(HealthResult(_, _)) <= 1 && all(HealthResult, $0 == payload(old(hc.consumer)))
+//@ ensures[C01,C09] success_needs_2xx: emitted(HealthResult(_, true)) ==> emitted(Probe(_, _, true, _))
+//@ ensures[C01,C09] non_2xx_never_succeeds: emitted(Probe(_, _, false, _)) ==> none(HealthResult(_, true))
+//@ ensures[C01,C09] one_probe_one_report: count(Probe(_, _, _, _)) <= 1 && count(HealthResult(_, _)) <= 1 && all(HealthResult, $0 == payload(old(hc.consumer)))
 //@ ensures[C01,C17] probe_bounded_by_probe_timeout: all(Probe, ctxDeadline($1) == old(now) + max(old(hc.timeout), 0) && ctxParent($1) == payload(old(hc.ctx)))
-//@ ensures[C09] reports_every_completed_probe: emitted(Probe(_, _, true)) ==> emitted(HealthResult(_, true))
+//@ ensures[C09] reports_every_completed_probe: emitted(Probe(_, _, true, _)) ==> emitted(HealthResult(_, true))
+//@ ensures[C09,C15] reports_every_failed_probe_unless_the_check_was_closed: emitted(Probe(_, _, false, false)) ==> emitted(HealthResult(_, false))
 
 //@ func iface server.TargetStateConsumer.TargetStateChanged
 //@ params recv, target
@@ -624,7 +625,7 @@ package server
 //@ func (*server.Service).CopyWithOptions
 //@ assigns nothing
 //@ may_emit LoadCert, ParseTemplates, ErrorPages
-//@ ensures[C06,C07,C08,C10,C02,C11] shares_runtime_state: err == nil ==> result0 != nil && fresh(result0) && result0 != s && result0.name == s.name && result0.active == s.active && result0.rollout == s.rollout && result0.pauseController == s.pauseController && result0.rolloutController == s.rolloutController && result0.targetOptions == targetOptions
+//@ ensures[C01,C02,C03,C06,C07,C08,C09,C10,C11,C17] shares_runtime_state: err == nil ==> result0 != nil && fresh(result0) && result0 != s && result0.name == s.name && result0.active == s.active && result0.rollout == s.rollout && result0.pauseController == s.pauseController && result0.rolloutController == s.rolloutController && result0.targetOptions == targetOptions
 //@ ensures[C16] cert_manager_matches_tls: err == nil ==> (!isnil(result0.certManager)) == result0.options.TLSEnabled && !isnil(result0.middleware)
 
 //@ func (*server.Service).Dispose
@@ -807,7 +808,7 @@ package server
 //@ may_emit WriteHeader, SendBuffer, Copy
 //@ ensures[C14,C13,C15] overflow_sends_nothing: old(w.buffer.overflowed) ==> err == ErrMaximumSizeExceeded && none(WriteHeader) && none(SendBuffer)
 //@ ensures[C14,C13,C15] hijacked_sends_nothing: !old(w.buffer.overflowed) && old(w.hijacked) ==> err == nil && none(WriteHeader) && none(SendBuffer)
-//@ ensures[C14,C13,C15] status_then_body: !old(w.buffer.overflowed) && !old(w.hijacked) ==> count(SendBuffer(_, _)) == 1 && (old(w.headerWritten) ==> emitted(WriteHeader(old(w.ResponseWriter), old(w.statusCode))) && first(WriteHeader(_, _), SendBuffer(_, _))) && (!old(w.headerWritten) ==> none(WriteHeader))
+//@ ensures[C14,C13,C15,C19] status_then_body: !old(w.buffer.overflowed) && !old(w.hijacked) ==> count(SendBuffer(_, _)) == 1 && (old(w.headerWritten) ==> emitted(WriteHeader(old(w.ResponseWriter), old(w.statusCode))) && first(WriteHeader(_, _), SendBuffer(_, _))) && (!old(w.headerWritten) ==> none(WriteHeader))
 //@ emits SendResponse(w, old(w.headerWritten), old(w.statusCode))
 
 //@ func (*server.bufferedResponseWriter).WriteHeader
@@ -1012,6 +1013,7 @@ package server
 //@ may_emit RebuildTable, SyncTLS, HostLookup
 //@ ensures[C05,C04] entry_replaced_by_name: haskey(m.services, service.name) && m.services[service.name] == service && forall n string :: n != service.name ==> haskey(m.services, n) == old(haskey(m.services, n)) && m.services[n] == old(m.services[n])
 //@ ensures[C04,C05] table_follows: repInv(m)
+//@ ensures[C16,C02,C04,C11] table_rebuilt_and_with_it_the_tls_settings_resynced: emitted(RebuildTable(m))
 //@ emits SetService(m, service)
 
 //@ func (*server.ServiceMap).Remove
@@ -1020,6 +1022,7 @@ package server
 //@ may_emit RebuildTable, SyncTLS, HostLookup
 //@ ensures[C05,C04,C06] all_pairs_released: !haskey(m.services, name) && forall n string :: n != name ==> haskey(m.services, n) == old(haskey(m.services, n)) && m.services[n] == old(m.services[n])
 //@ ensures[C04,C05] table_follows: repInv(m)
+//@ ensures[C16,C02,C04,C11] table_rebuilt_and_with_it_the_tls_settings_resynced: emitted(RebuildTable(m))
 //@ emits RemoveService(m, name)
 
 //@ func (*server.Router).serviceForName
@@ -1175,7 +1178,8 @@ package server
 //@ attr blocks
 //@ assigns *
 //@ may_emit *
-//@ ensures[C20,C17] arguments_reach_the_router_in_position: count(CmdDeploy(_, _, _, _, _)) == 1 && emitted(CmdDeploy(old(h.router), args.Service, args.DeployTimeout, args.DrainTimeout, _))
+//@ ensures[C20,C17,C01,C02,C03,C06] arguments_reach_the_router_in_position: count(CmdDeploy(_, _, _, _, _)) == 1 && emitted(CmdDeploy(old(h.router), args.Service, args.DeployTimeout, args.DrainTimeout, _))
+//@ ensures[C20,C06,C01,C02,C03,C06,C07,C08] no_other_command_is_issued: none(CmdRolloutDeploy) && none(CmdRolloutSet) && none(CmdRolloutStop) && none(CmdPause) && none(CmdStop) && none(CmdResume) && none(CmdRemove)
 //@ ensures[C20,C06] error_is_reported_to_the_client: emitted(CmdDeploy(_, _, _, _, result == nil))
 
 //@ func (*server.CommandHandler).RolloutDeploy
@@ -1183,7 +1187,8 @@ package server
 //@ attr blocks
 //@ assigns *
 //@ may_emit *
-//@ ensures[C20,C17] arguments_reach_the_router_in_position: count(CmdRolloutDeploy(_, _, _, _, _)) == 1 && emitted(CmdRolloutDeploy(old(h.router), args.Service, args.DeployTimeout, args.DrainTimeout, _))
+//@ ensures[C20,C17,C01,C02,C03,C10] arguments_reach_the_router_in_position: count(CmdRolloutDeploy(_, _, _, _, _)) == 1 && emitted(CmdRolloutDeploy(old(h.router), args.Service, args.DeployTimeout, args.DrainTimeout, _))
+//@ ensures[C20,C06,C01,C02,C03,C10,C07,C08] no_other_command_is_issued: none(CmdDeploy) && none(CmdRolloutSet) && none(CmdRolloutStop) && none(CmdPause) && none(CmdStop) && none(CmdResume) && none(CmdRemove)
 //@ ensures[C20,C06] error_is_reported_to_the_client: emitted(CmdRolloutDeploy(_, _, _, _, result == nil))
 
 //@ func (*server.CommandHandler).RolloutSet
@@ -1191,7 +1196,8 @@ package server
 //@ attr blocks
 //@ assigns *
 //@ may_emit *
-//@ ensures[C20,C17] arguments_reach_the_router_in_position: count(CmdRolloutSet(_, _, _, _)) == 1 && emitted(CmdRolloutSet(old(h.router), args.Service, args.Percentage, _))
+//@ ensures[C20,C17,C10] arguments_reach_the_router_in_position: count(CmdRolloutSet(_, _, _, _)) == 1 && emitted(CmdRolloutSet(old(h.router), args.Service, args.Percentage, _))
+//@ ensures[C20,C06,C10,C07,C08] no_other_command_is_issued: none(CmdDeploy) && none(CmdRolloutDeploy) && none(CmdRolloutStop) && none(CmdPause) && none(CmdStop) && none(CmdResume) && none(CmdRemove)
 //@ ensures[C20,C06] error_is_reported_to_the_client: emitted(CmdRolloutSet(_, _, _, result == nil))
 
 //@ func (*server.CommandHandler).RolloutStop
@@ -1199,7 +1205,8 @@ package server
 //@ attr blocks
 //@ assigns *
 //@ may_emit *
-//@ ensures[C20,C17] arguments_reach_the_router_in_position: count(CmdRolloutStop(_, _, _)) == 1 && emitted(CmdRolloutStop(old(h.router), args.Service, _))
+//@ ensures[C20,C17,C10] arguments_reach_the_router_in_position: count(CmdRolloutStop(_, _, _)) == 1 && emitted(CmdRolloutStop(old(h.router), args.Service, _))
+//@ ensures[C20,C06,C10,C07,C08] no_other_command_is_issued: none(CmdDeploy) && none(CmdRolloutDeploy) && none(CmdRolloutSet) && none(CmdPause) && none(CmdStop) && none(CmdResume) && none(CmdRemove)
 //@ ensures[C20,C06] error_is_reported_to_the_client: emitted(CmdRolloutStop(_, _, result == nil))
 
 //@ func (*server.CommandHandler).Pause
@@ -1207,7 +1214,8 @@ package server
 //@ attr blocks
 //@ assigns *
 //@ may_emit *
-//@ ensures[C20,C17] arguments_reach_the_router_in_position: count(CmdPause(_, _, _, _, _)) == 1 && emitted(CmdPause(old(h.router), args.Service, args.DrainTimeout, args.PauseTimeout, _))
+//@ ensures[C20,C17,C03,C07] arguments_reach_the_router_in_position: count(CmdPause(_, _, _, _, _)) == 1 && emitted(CmdPause(old(h.router), args.Service, args.DrainTimeout, args.PauseTimeout, _))
+//@ ensures[C20,C06,C03,C07,C07,C08] no_other_command_is_issued: none(CmdDeploy) && none(CmdRolloutDeploy) && none(CmdRolloutSet) && none(CmdRolloutStop) && none(CmdStop) && none(CmdResume) && none(CmdRemove)
 //@ ensures[C20,C06] error_is_reported_to_the_client: emitted(CmdPause(_, _, _, _, result == nil))
 
 //@ func (*server.CommandHandler).Stop
@@ -1215,7 +1223,8 @@ package server
 //@ attr blocks
 //@ assigns *
 //@ may_emit *
-//@ ensures[C20,C17] arguments_reach_the_router_in_position: count(CmdStop(_, _, _, _, _)) == 1 && emitted(CmdStop(old(h.router), args.Service, args.DrainTimeout, args.Message, _))
+//@ ensures[C20,C17,C03,C08] arguments_reach_the_router_in_position: count(CmdStop(_, _, _, _, _)) == 1 && emitted(CmdStop(old(h.router), args.Service, args.DrainTimeout, args.Message, _))
+//@ ensures[C20,C06,C03,C08,C07,C08] no_other_command_is_issued: none(CmdDeploy) && none(CmdRolloutDeploy) && none(CmdRolloutSet) && none(CmdRolloutStop) && none(CmdPause) && none(CmdResume) && none(CmdRemove)
 //@ ensures[C20,C06] error_is_reported_to_the_client: emitted(CmdStop(_, _, _, _, result == nil))
 
 //@ func (*server.CommandHandler).Resume
@@ -1223,7 +1232,8 @@ package server
 //@ attr blocks
 //@ assigns *
 //@ may_emit *
-//@ ensures[C20,C17] arguments_reach_the_router_in_position: count(CmdResume(_, _, _)) == 1 && emitted(CmdResume(old(h.router), args.Service, _))
+//@ ensures[C20,C17,C07,C08] arguments_reach_the_router_in_position: count(CmdResume(_, _, _)) == 1 && emitted(CmdResume(old(h.router), args.Service, _))
+//@ ensures[C20,C06,C07,C08,C07,C08] no_other_command_is_issued: none(CmdDeploy) && none(CmdRolloutDeploy) && none(CmdRolloutSet) && none(CmdRolloutStop) && none(CmdPause) && none(CmdStop) && none(CmdRemove)
 //@ ensures[C20,C06] error_is_reported_to_the_client: emitted(CmdResume(_, _, result == nil))
 
 //@ func (*server.CommandHandler).Remove
@@ -1231,7 +1241,8 @@ package server
 //@ attr blocks
 //@ assigns *
 //@ may_emit *
-//@ ensures[C20,C17] arguments_reach_the_router_in_position: count(CmdRemove(_, _, _)) == 1 && emitted(CmdRemove(old(h.router), args.Service, _))
+//@ ensures[C20,C17,C05,C06] arguments_reach_the_router_in_position: count(CmdRemove(_, _, _)) == 1 && emitted(CmdRemove(old(h.router), args.Service, _))
+//@ ensures[C20,C06,C05,C06,C07,C08] no_other_command_is_issued: none(CmdDeploy) && none(CmdRolloutDeploy) && none(CmdRolloutSet) && none(CmdRolloutStop) && none(CmdPause) && none(CmdStop) && none(CmdResume)
 //@ ensures[C20,C06] error_is_reported_to_the_client: emitted(CmdRemove(_, _, result == nil))
 
 //@ func (*server.targetResponseWriter).Flush
@@ -1313,3 +1324,19 @@ package server
 //@ assigns *
 //@ may_emit *
 //@ ensures[C03,C06,C07,C08,C17] waits_for_what_it_started: count(WgWait(_)) == 1
+
+//@ func (*server.Server).Stop
+//@ attr blocks
+//@ assigns *
+//@ may_emit *
+//@ ensures[C11,C12,C06] shutting_down_changes_no_configuration: none(CmdRemove) && none(CmdStop) && none(CmdPause) && none(CmdResume) && none(CmdDeploy) && none(CmdRolloutDeploy) && none(CmdRolloutSet) && none(CmdRolloutStop) && none(Snapshot)
+
+//@ func (*server.loggerResponseWriter).Flush
+//@ assigns @flushFrame
+//@ may_emit Flush
+//@ ensures[C13,C14,C19] a_flush_goes_to_the_wrapped_writer_and_nowhere_else: count(Flush(_)) <= 1 && all(Flush, $0 == payload(old(r.ResponseWriter)))
+
+//@ func (*server.bufferedResponseWriter).Flush
+//@ assigns @flushFrame
+//@ may_emit Flush
+//@ ensures[C13,C14] only_an_unbuffered_stream_is_flushed: count(Flush(_)) <= 1 && all(Flush, $0 == payload(old(w.ResponseWriter)) && old(w.bypass))
